@@ -77,6 +77,8 @@ def materialise(case, root):
 
 def judge_listing(case, root):
     cmd = case['cmd']
+    if not case['files']:
+        return []        # no file named: usage handling is not part of the property
     paths = materialise(case, root)
     fails = []
 
